@@ -292,6 +292,15 @@ def f_zone_beyond_space(rng, d):
     return d
 
 
+def f_global_beyond_space(rng, d):
+    # GLOBAL itself reaches one address past the top of the address space (so every other zone is still inside GLOBAL)
+    zs = [z for z in _zones(d) if z['name'] != 'GLOBAL']
+    top = 1 << d['general'].get('address_size', 16)
+    g = {'name': 'GLOBAL', 'start': 0, 'end': rng.choice([top, top, top + 1])}
+    d['predefined']['memory_zones'] = (zs + [g]) if rng.random() < 0.5 else ([g] + zs)
+    return d
+
+
 def f_zone_inverted(rng, d):
     s = rng.choice([0x10, 0x200, 0xFFFF])
     _zones(d).append({'name': 'inv', 'start': s, 'end': s - rng.choice([1, 1, 0x10])})
@@ -335,7 +344,7 @@ def f_min_version_garbage(rng, d):
 
 FAULTS = [f_no_general, f_no_instructions, f_no_operand_sets, f_mnemonic_keyword, f_macro_keyword, f_register_keyword,
           f_macro_is_instruction, f_no_bytecode, f_no_count, f_unknown_set, f_count_vs_sets, f_count_vs_specific,
-          f_undeclared_register, f_drop_register, f_inverted_range, f_zone_beyond_space, f_zone_inverted, f_zone_outside_global,
+          f_undeclared_register, f_drop_register, f_inverted_range, f_zone_beyond_space, f_global_beyond_space, f_zone_inverted, f_zone_outside_global,
           f_global_after_origin, f_min_version_newer, f_min_version_older, f_min_version_garbage]
 
 
